@@ -39,6 +39,17 @@ fn reject<X: Sx>(
     if v.outcome.is_panic() {
         ctx.count("panics_seen(counted as not accepted; C08 judges them)", 1);
     }
+    // an empty message list may also be spelled None
+    if msgs.is_empty() {
+        let v = ctx.call("verify", &case, Some(64), || s.verify(pk, None, hdr));
+        if v.outcome.is_ok() {
+            ctx.violation(
+                &format!("C02:accepted/{}", kind),
+                json!({"case":case,"messages_argument":"None","sk":hx(&h.sk.to_bytes()),"pk_used":hx(&pk.to_bytes()),"header_signed":hx(h.hdr.octets()),
+                       "header_used":hdr.map(hx),"signature_signed":hx(&h.sig),"signature_used":hx(sig)}),
+            );
+        }
+    }
 }
 
 fn one<X: Sx, Y: Sx>(ctx: &Ctx, idx: u64, l: usize, hdr_class: usize, msg_class: usize, all_flips: bool) {
@@ -68,7 +79,8 @@ fn one<X: Sx, Y: Sx>(ctx: &Ctx, idx: u64, l: usize, hdr_class: usize, msg_class:
             }
         }
     }
-    let s = ctx.call("sign", "honest", None, || Sig::<X>::sign(Some(&msgs), &sk, &pk, hdr.as_opt()));
+    let m_sign: Option<&[Vec<u8>]> = if l == 0 && idx % 2 == 1 { None } else { Some(&msgs) };
+    let s = ctx.call("sign", "honest", None, || Sig::<X>::sign(m_sign, &sk, &pk, hdr.as_opt()));
     let Some(sig) = s.value else {
         ctx.inconclusive("C02: honest sign failed (C01's business)");
         return;
@@ -272,6 +284,8 @@ pub fn scenarios(ctx: &Ctx) -> Vec<Scenario> {
     };
     let reps = ctx.t(2, 6);
     for &l in ls.iter().rev() {
+        // no messages at all: the header is the only signed content - more repetitions, non-empty header classes too
+        let reps = if l == 0 { reps + 4 } else { reps };
         for rep in 0..reps {
             let i = idx;
             idx += 1;
